@@ -516,6 +516,10 @@ def file_int_constants(paths, repo=None):
                     and isinstance(node.right, ast.Constant) and isinstance(node.left.value, int) \
                     and isinstance(node.right.value, int) and 0 <= node.right.value <= 24:
                 v = node.left.value ** node.right.value
+            elif isinstance(node, ast.BinOp) and isinstance(node.op, ast.LShift) and isinstance(node.left, ast.Constant) \
+                    and isinstance(node.right, ast.Constant) and isinstance(node.left.value, int) \
+                    and isinstance(node.right.value, int) and 0 <= node.right.value <= 24:
+                v = node.left.value << node.right.value
             elif isinstance(node, ast.BinOp) and isinstance(node.op, ast.Mult) and isinstance(node.left, ast.Constant) \
                     and isinstance(node.right, ast.Constant) and isinstance(node.left.value, int) \
                     and isinstance(node.right.value, int):
